@@ -338,6 +338,104 @@ def normalise(edges, inits):
     return edges, [st(s) for s in inits]
 
 
+def S(text):
+    return {"t": "str", "s": list(text)}
+
+
+def I(n):
+    return {"t": "int", "i": n}
+
+
+def driver(cinco, seed, n_traces, length):
+    """Seeded random method calls on a real typed list / dict (values beyond TLC's pools)."""
+    rng = random.Random(seed)
+    traces = []
+
+    def item():
+        return rng.choice([I(rng.randint(0, 40)), I(rng.randint(0, 3)), S(str(rng.randint(0, 30))), S(" %d " % rng.randint(0, 9)), I(-rng.randint(1, 9)), S("x%d" % rng.randint(0, 9))])
+
+    def other_item():
+        return rng.choice([I(rng.randint(-5, 30)), S(str(rng.randint(-3, 20)))])
+
+    def src():
+        k = rng.choice(["list", "tuple", "iter", "other", "same"])
+        if k == "same":
+            return {"k": "same", "vs": []}
+        return {"k": k, "vs": [other_item() if k == "other" else item() for _ in range(rng.randint(0, 3))]}
+
+    def key():
+        return rng.choice([S(rng.choice(["a", "A", "b", "Bc", "k1"])), S(rng.choice(["a", "A", "b", "Bc", "k1"])), I(rng.randint(0, 2))])
+
+    def val():
+        return rng.choice([I(rng.randint(0, 20)), S(str(rng.randint(0, 20))), I(-1), S("v")])
+
+    def dsrc():
+        k = rng.choice(["dict", "pairs", "kwargs", "other", "same"])
+        if k == "same":
+            return {"k": "same", "kvs": []}
+        kvs, seen = [], set()
+        for _ in range(rng.randint(0, 3)):
+            kk = key() if k not in ("kwargs",) else S(rng.choice(["a", "A", "b", "k1"]))
+            tag = repr(kk)
+            if k != "pairs" and tag in seen:
+                continue
+            seen.add(tag)
+            kvs.append([kk, val()])
+        if k == "other":
+            kvs = [[kk, vv] for kk, vv in kvs if kk["t"] == "str" and (vv["t"] == "int" and vv["i"] >= 0 or vv["t"] == "str" and vv["s"] != ["v"])]
+        return {"k": k, "kvs": kvs}
+
+    for _ in range(n_traces):
+        w = World(cinco)
+        events = []
+        for _ in range(length):
+            if rng.random() < 0.6:
+                m = rng.choice(["append", "insert", "setitem", "extend", "iadd", "setslice", "delitem", "delslice", "pop", "popi", "remove", "index", "count", "contains", "getitem", "getslice", "len", "sort", "reverse", "clear", "copy", "add", "mul", "imul", "eq"])
+                op = {"m": m}
+                if m in ("append", "remove", "index", "count", "contains"):
+                    op["x"] = item()
+                elif m in ("insert", "setitem"):
+                    op.update(i=rng.randint(-4, 5), x=item())
+                elif m in ("extend", "iadd", "add"):
+                    op["src"] = src()
+                elif m == "setslice":
+                    op.update(lo=rng.randint(-2, 3), hi=rng.randint(-1, 6), src=src())
+                elif m in ("delitem", "popi", "getitem"):
+                    op["i"] = rng.randint(-4, 5)
+                elif m in ("delslice", "getslice"):
+                    op.update(lo=rng.randint(-2, 3), hi=rng.randint(-1, 6))
+                elif m in ("mul", "imul"):
+                    op["n"] = rng.randint(0, 2)
+                elif m == "eq":
+                    op["xs"] = [I(rng.randint(0, 3)) for _ in range(rng.randint(0, 2))]
+                if len(w.L) > 12 and m in ("imul", "extend", "iadd", "append", "insert", "setslice"):
+                    continue
+                if "src" in op and op["src"]["k"] == "other" and any(v["t"] == "str" and not v["s"][-1:][0].isdigit() for v in op["src"]["vs"] if v["t"] == "str" and v["s"]):
+                    continue
+                ev = {"c": "list", "op": op}
+            else:
+                m = rng.choice(["setitem", "update", "ior", "setdefault", "pop", "popd", "popitem", "delitem", "clear", "copy", "get", "contains", "keys", "len"])
+                op = {"m": m}
+                if m in ("setitem", "setdefault", "popd"):
+                    op.update(k=key(), v=val())
+                elif m in ("update", "ior"):
+                    op["src"] = dsrc()
+                    if m == "ior" and op["src"]["k"] == "kwargs":
+                        continue
+                elif m in ("pop", "delitem", "get", "contains"):
+                    op["k"] = key()
+                ev = {"c": "dict", "op": op}
+            try:
+                res = w.step(dict(ev, acceptable=False))
+                obs = w.observe()
+            except codec.Unrepresentable:
+                break
+            rec = {"c": ev["c"], "op": ev["op"], "out": res["out"], "ret": res["ret"], "typed": res["typed"], "L": obs["L"], "D": obs["D"]}
+            events.append(rec)
+        traces.append({"init": {}, "events": events})
+    return traces
+
+
 def run(tier, seed):
     cinco = common.import_repo()
     out = common.Outcome("C17")
@@ -372,7 +470,21 @@ def run(tier, seed):
             "spec->code: %s.%s differs from the specification: %s" % (m.ev["c"], {k: v for k, v in m.ev["op"].items()}, m.detail[:300]),
             m.to_json(),
         )
-    cases = stats["cases"] + stats2["cases"]
+    # code -> spec
+    ntr, ltr = (300, 14) if tier == "quick" else (4000, 20)
+    traces = driver(cinco, seed, ntr, ltr)
+    tcfg = os.path.join(d, "trace.cfg")
+    write_cfg(tcfg, 99, maxlen=200, trace=True)
+    verdicts, tstats = tracecheck.validate("Trace_Containers.tla", tcfg, traces)
+    for v in [v for v in verdicts if not v.accepted][:20]:
+        k = (v.at or v.consumed + 1) - 1
+        e = v.trace["events"][k] if k < len(v.trace["events"]) else {}
+        out.violation(
+            "trace:%s:%s:%s" % (e.get("c"), (e.get("op") or {}).get("m"), ",".join(v.bad_inv or v.bad_obs or ["not-enabled"])),
+            "code->spec: recorded %s trace rejected: %s" % (e.get("c"), v.describe()[:300]),
+            v.to_json(),
+        )
+    cases = stats["cases"] + stats2["cases"] + len(verdicts)
     distinct = {common.hash_case([cf, ck]) for cf, ck, _ in list(g.cases()) + list(g2.cases())}
     out.coverage = {
         "states": res.distinct,
@@ -382,6 +494,9 @@ def run(tier, seed):
         "traces_validated_against_impl": cases,
         "spec_to_code_graph_cases": stats["cases"],
         "spec_to_code_sim_cases": stats2["cases"],
+        "code_to_spec_traces": len(verdicts),
+        "code_to_spec_events": sum(len(t["events"]) for t in traces),
+        "code_to_spec_tlc_states": tstats["states"],
         "spec_to_code_by_op": {k: stats["by_op"].get(k, 0) + stats2["by_op"].get(k, 0) for k in set(stats["by_op"]) | set(stats2["by_op"])},
         "evaluations": cases,
         "distinct_nontrivial": len(distinct),
